@@ -849,7 +849,7 @@ class StlSpace(DevSpace):
   """field / TF-byte deviations + block-level deviations of an STL file"""
 
   def __init__(self, name, data, cfg, pairs=False, tf_bytes=True, only=None):
-    """only: None = every token; 'fields' = GSI and TTI fields (no TF); 'tti' = TTI fields and TF (no GSI); 'none' = block-level deviations only"""
+    """only: None = every token; 'fields' = GSI and TTI fields (no TF); 'tti' = TTI fields and TF (no GSI); 'gsi' = GSI fields; 'none' = block-level deviations only"""
     toks = stl_tokens(data, tf_bytes)
     values = {}
     for t in toks:
@@ -865,6 +865,8 @@ class StlSpace(DevSpace):
       positions = [i for i, t in enumerate(toks) if ".TF" not in t[3]]
     elif only == "tti":
       positions = [i for i, t in enumerate(toks) if not t[3].startswith("GSI.")]
+    elif only == "gsi":
+      positions = [i for i, t in enumerate(toks) if t[3].startswith("GSI.")]
     elif only == "none":
       positions = []
     super().__init__(name, "stl", toks, values=vals, join=lambda ts: b"".join(t[0] for t in ts), pairs=pairs, positions=positions,
